@@ -217,9 +217,11 @@ class Ctx:
         self.notes = []
 
     def n(self, quick, thorough, boost=None):
-        if self.boost and boost is not None:
-            return boost
-        return thorough if self.thorough else quick
+        if self.thorough:
+            return thorough
+        if self.boost:
+            return boost if boost is not None else max(quick, int((quick * thorough) ** 0.5))
+        return quick
 
 
 def load_known():
@@ -259,7 +261,11 @@ def main():
     seed = int(os.environ.get('VERIF_SEED', '0') or 0)
     mod = importlib.import_module('props.%s' % pid.lower())
     if a.replay:
-        sys.exit(mod.replay(json.load(open(a.replay))))
+        payload = json.load(open(a.replay))
+        if (payload.get('violation') or {}).get('purity'):
+            import purity
+            sys.exit(purity.replay(payload['violation']))
+        sys.exit(mod.replay(payload))
     t0 = time.time()
     lock = open(os.path.join(VERIF, '.lock'), 'w')
     fcntl.flock(lock, fcntl.LOCK_EX)
@@ -291,9 +297,17 @@ def run(pid, mod, tier, seed, t0):
             raise Infra('generator gen_%s failed:\n%s' % (g, out[-3000:]))
     # 1b. hand models are valid for the source text they were written against
     import pins as pinmod
-    for spec, old, cur in pinmod.changed(pid, getattr(mod, 'PINS', []), REPO):
-        broken.append({'kind': 'hand-model-pin', 'what': spec,
-                       'detail': {'pinned': old, 'current': cur, 'why': 'source of a hand-modelled definition changed; model not re-validated'}})
+    # A hand model is tied to the code by its correspondence stream.  When the (normalised) source text of a definition
+    # it mirrors has changed since the model was last reviewed, that tie has to be re-established on the spot: the
+    # correspondence and the failing-input search run with their large budgets (ctx.boost).  A disagreement or a failing
+    # input is reported as usual; agreement on the enlarged stream re-validates the model for the new text (recorded in the
+    # evidence under `pins_changed`).  A changed pin alone is not an alarm: a rename or a re-ordered statement is harmless.
+    pins_changed = [{'spec': spec, 'pinned': old, 'current': cur} for spec, old, cur in pinmod.changed(pid, getattr(mod, 'PINS', []), REPO)]
+    if pins_changed:
+        ctx.boost = True
+        ctx.notes.append('source of hand-modelled definitions changed (%s): correspondence and search run with the large budget'
+                         % ', '.join(p['spec'] for p in pins_changed))
+        print('pins changed: %s -> boosted correspondence and search' % ', '.join(p['spec'] for p in pins_changed))
     # 2. build
     mods = list(getattr(mod, 'LEAN_MODULES', []))
     drivers = list(getattr(mod, 'LEAN_DRIVER_MODULES', []))
@@ -341,7 +355,7 @@ def run(pid, mod, tier, seed, t0):
     else:
         failed = set(b['what'] for b in broken if b['kind'] == 'lean-obligation')
         discharged = len([n for n in obligations if n.split('.')[-1] not in failed and n not in failed])
-        if any(b['kind'] not in ('lean-obligation', 'hand-model-pin') for b in broken):
+        if any(b['kind'] != 'lean-obligation' for b in broken):
             discharged = 0
     # 4. correspondence
     import purity
@@ -353,19 +367,30 @@ def run(pid, mod, tier, seed, t0):
         except Infra as e:
             # the model side could not even run (e.g. build of the driver broke): correspondence is broken
             broken.append({'kind': 'correspondence', 'what': 'model driver', 'detail': str(e)[-600:]})
+        except subprocess.TimeoutExpired:
+            raise
+        except Exception as e:
+            # the implementation no longer behaves like anything the stream generator anticipates (wrong shapes, missing
+            # settings, new exceptions): model and code cannot be compared, i.e. the correspondence is broken
+            tb = traceback.format_exc()
+            broken.append({'kind': 'correspondence', 'what': 'stream aborted: %s' % type(e).__name__, 'detail': tb[-900:]})
+            ctx.notes.append('correspondence aborted: %s: %s' % (type(e).__name__, str(e)[:300]))
         for d in corr.get('disagreements', [])[:5]:
             broken.append({'kind': 'correspondence', 'what': d.get('fn', '?'), 'detail': d})
     # 5. failing-input search on the real code
-    ctx.boost = bool(broken)
+    ctx.boost = ctx.boost or bool(broken)
     try:
         orc = mod.oracle(ctx, hints=[b['detail'] for b in broken])
-    except Exception as e:
+    except (Infra, subprocess.TimeoutExpired):
         purity.uninstall()
-        if not broken:
-            raise
+        raise
+    except Exception as e:
         # the code under test no longer behaves like anything the search harness anticipated (e.g. wrong result
-        # shapes): the obligation/correspondence is broken anyway, report that rather than an infrastructure failure
+        # shapes, unexpected exception types): the property cannot be evaluated on it, which is reported as a broken
+        # tie rather than an infrastructure failure
+        tb = traceback.format_exc()
         ctx.notes.append('failing-input search aborted: %s: %s' % (type(e).__name__, str(e)[:300]))
+        broken.append({'kind': 'search-aborted', 'what': type(e).__name__, 'detail': tb[-900:]})
         orc = {'evaluations': 0, 'distinct_nontrivial': 0, 'violations': []}
     purity.uninstall()
     orc.setdefault('violations', [])
@@ -425,6 +450,8 @@ def run(pid, mod, tier, seed, t0):
         'exhaustive': bool(orc.get('exhaustive', False)),
         'known_findings_reproduced': sorted(known_hit),
         'broken': broken,
+        'pins_changed': pins_changed,
+        'value_semantics_guard': dict(purity.STATS, mutation_events=len(purity.EVENTS), history_events=len(purity.HISTORY_EVENTS)),
         'notes': ctx.notes,
     }
     ev = {'property_id': pid, 'tier': tier, 'seed': seed, 'level': 'proof', 'coverage': cov,
